@@ -2,6 +2,7 @@
 from traces import *
 import C16
 import hashbuf
+import fanout
 
 TECHNIQUE = 'static analysis: who-may-seed census and value-origin of the routing hash state; call-graph must-reach; path enumeration of the task-completion fan-out; pending-needs-delegation on the output stream'
 EXPLANATION = ('(a) Single routing seed: SeededRandomState::with_seed is called only by the two seed constants and the plan decoder; '
@@ -9,7 +10,7 @@ EXPLANATION = ('(a) Single routing seed: SeededRandomState::with_seed is called 
                'partitioned dynamic filters with that same constant (named local repartition_random_state). (b) RangeExpr::evaluate '
                'and BatchPartitioner::partition_range_indices both reach range_partition_id. (c) RepartitionExec::wait_for_task: in '
                'each of its three arms every output channel yielded by the iteration is sent a terminal message — Some(Err(..)) '
-               'carrying the join error or the task error in the two failure arms, None on success. (e) PerPartitionStream::'
+               'carrying the join error or the task error in the two failure arms, None on success; and every loop that sends to each channel of a collection (wherever it lives in the call tree of wait_for_task) runs until its iterator is exhausted on every path — a failed send to an output that was dropped early must not stop the others from receiving theirs. (e) PerPartitionStream::'
                'poll_next_inner returns Pending only by delegation to an inner poll. Clause (d) — no engine error of pull_from_input is '
                'swallowed — is decided by the C20 site rule. (f) Both routers hash into a buffer that is all zeros on every path (vec![0; n] or clear()+resize(n, 0)), so the hash of a NULL key cannot depend on an earlier batch. Exact placement of rows, spilling order and schedules are not decided.')
 ASSUMPTIONS = ['loops unrolled twice: "every output" is checked per iteration of the for-loop over txs']
@@ -130,13 +131,22 @@ def run(ctx):
                     elif base and base not in show(msg) and base.split('@')[0] not in show(msg):
                         problems.add('%s arm: the error sent (%s) is not built from the result of the failed task' % (arm, show(msg)[:80]))
                 arms[arm][1] += 1
+        hidden = []
         for a, (np_, ns) in arms.items():
             if np_ == 0:
                 problems.add('arm %s not found' % a)
+            elif ns == 0:
+                hidden.append(a)       # the sends of this arm are not in this body (moved to a helper): content not checked here
+        for a in hidden:
+            ctx.skip('terminal-message-to-every-output', 'wait_for_task[%s arm]' % a, 'no send in this body on the arm: the fan-out was moved to a helper; '
+                     'completeness is decided by fan-out-complete, the message content is not visible')
         if problems:
             ctx.fail('terminal-message-to-every-output', 'wait_for_task', ctx.loc(rec), '; '.join(sorted(problems)), key='terminal-message-to-every-output|wait_for_task')
         else:
             ctx.ok('terminal-message-to-every-output', 'wait_for_task', sample={'paths_per_arm': {a: v[0] for a, v in arms.items()}, 'sends_checked': {a: v[1] for a, v in arms.items()}})
+    # (c2) every loop that sends to each output channel of a collection runs to exhaustion (no exit on a failed send)
+    fanout.check(ctx, 'fan-out-complete', lambda c: (c[1:] if c.startswith('<') else c).startswith('datafusion_physical_plan::repartition'),
+                 must_cover=[RP + 'RepartitionExec::wait_for_task'], floor=1)
     # (e)
     P = RP + 'PerPartitionStream::poll_next_inner'
     rec = ctx.fn(P, 'pending-is-delegated')
